@@ -189,9 +189,9 @@ func RunExchangeCase(cs ExCase) *ExObs {
 	for l, v := range m.Series(ns + "_http_requests_total") {
 		o.Total[LabelValue(l, "code")+"|"+LabelValue(l, "method")] += v
 	}
-	o.LAct = m.Sum(ns + "_listener_cx_active")
+	o.LAct = m.AbsSum(ns + "_listener_cx_active") // every series, not their sum
 	o.LTot = m.Sum(ns + "_listener_cx_total")
-	o.DAct = m.Sum(ns + "_dialer_cx_active")
+	o.DAct = m.AbsSum(ns + "_dialer_cx_active")
 	o.DTot = m.Sum(ns + "_dialer_cx_total")
 	e.Rig.Close()
 	// cases whose write outcome is decided by a race (client already gone or not):
